@@ -21,7 +21,14 @@ Ties per case (DESIGN.md §6/C01, design_notes/C01.md):
   deterministic line-granular scheduler (harness/sched.py), every schedule with one pre-emption (two in the thorough
   tier); every emitted record / decoded row is judged by the same oracle, every emitted record is compared with the model;
 * encoder refusals (nesting beyond ormsgpack's limit, integers beyond 64 bits, payload above the
-  cap): no record is emitted on either side;  `default=` glue: what non-native items turn into.
+  cap): no record is emitted on either side;  `default=` glue: what non-native items turn into;
+* the kind of row *object* (`obj`: built from a tuple / a dict, handed back by from_bytes, user subclasses with and
+  without `__slots__`, a row a DataFrame holds) × the class variant; every decoded row is serialised again, every row
+  object is serialised three times with `nbytes()` in between.
+
+Totality: whatever a call into orso returns or raises is mapped to an outcome the oracle judges (`classify_row`,
+`impl_decode`, `impl_encode`, `judge_emitted`, `judge_altered`); nothing the implementation does can end the run with a
+harness error (only `KeyboardInterrupt` passes through).
 """
 import datetime
 import json
@@ -67,15 +74,45 @@ def to_py(v, tuples):
     return v
 
 
-def canon(v):
-    """Implementation value -> wire universe (tuples as lists)."""
+class Foreign:
+    """A value outside the wire universe that the implementation handed back (an object, a Decimal, a numpy
+    array, ...): shown by type name and repr, equal only to a foreign value of the same type name, never to a
+    value of the domain."""
+
+    def __init__(self, v):
+        self.type = type(v).__name__
+        try:
+            self.text = repr(v)[:120]
+        except BaseException:
+            self.text = "<unprintable>"
+
+    def __eq__(self, o):
+        return isinstance(o, Foreign) and o.type == self.type
+
+    def __ne__(self, o):
+        return not self.__eq__(o)
+
+    def __hash__(self):
+        return hash(("Foreign", self.type))
+
+    def __repr__(self):
+        return "<foreign %s %s>" % (self.type, self.text)
+
+
+def canon(v, depth=0):
+    """Implementation value -> wire universe (tuples as lists); anything else becomes a `Foreign` marker, so
+    that whatever the implementation hands back can be compared and printed."""
+    if depth > 1100:
+        return Foreign(v)
     if isinstance(v, (list, tuple)):
-        return [canon(x) for x in v]
+        return [canon(x, depth + 1) for x in v]
     if isinstance(v, dict):
-        return {k: canon(x) for k, x in v.items()}
+        return {(k if isinstance(k, str) else Foreign(k)): canon(x, depth + 1) for k, x in v.items()}
     if isinstance(v, bytearray):
         return bytes(v)
-    return v
+    if v is None or isinstance(v, (bool, int, float, str, bytes)):
+        return v
+    return Foreign(v)
 
 
 def undup(v):
@@ -117,18 +154,119 @@ def shadow():
 
 
 class using_source:
-    """Run `Row.from_bytes` with the decoder of compiled.pyx (shadow) instead of the binary."""
+    """Run `Row.from_bytes` with the decoder of compiled.pyx (shadow) instead of the binary.  The glue may reach
+    the compiled function through a name bound in orso.row (`from ... import from_bytes_cython`) or through the
+    module (`compiled.from_bytes_cython(...)`): both places are patched, whichever exist."""
 
     def __enter__(self):
-        import orso.row as rowmod
-
-        self.mod = rowmod
-        self.saved = rowmod.from_bytes_cython
-        rowmod.from_bytes_cython = shadow()[0]
+        self.saved = []
+        f = shadow()[0]
+        if f is None:
+            return self
+        self.was = _ACTIVE[0]
+        _ACTIVE[0] = "src"
+        try:
+            import orso.compute.compiled as cc
+            import orso.row as rowmod
+        except Exception:
+            return self
+        for mod in (rowmod, cc):
+            if hasattr(mod, "from_bytes_cython"):
+                try:
+                    old = getattr(mod, "from_bytes_cython")
+                    setattr(mod, "from_bytes_cython", f)
+                    self.saved.append((mod, old))
+                except Exception:
+                    pass
         return self
 
     def __exit__(self, *a):
-        self.mod.from_bytes_cython = self.saved
+        for mod, old in reversed(self.saved):
+            try:
+                setattr(mod, "from_bytes_cython", old)
+            except Exception:
+                pass
+        self.saved = []
+        _ACTIVE[0] = getattr(self, "was", "bin")
+
+
+_ACTIVE = ["bin"]  # which decoder `Row.from_bytes` reaches right now
+_DE_TEXT = {}  # decoder -> (text of the error for a short buffer, text of the error for a wrong length field) | None
+
+
+def data_error_kind(text):
+    """`malformed` / `badLength` — the two `DataError`s of the decoder are told apart by their message.  The messages
+    are not part of the property, so they are *learned from the decoder at hand* (once per decoder: what it says for an
+    empty buffer and what it says for a well-formed header with a wrong length field) instead of being fixed here: a
+    reworded message changes nothing.  When the decoder uses one message for both the kind is `dataError`, which
+    `same_form` lets agree with either of the model's two."""
+    who = _ACTIVE[0]
+    if who not in _DE_TEXT:
+        _DE_TEXT[who] = None  # (also guards against re-entry while learning)
+        try:
+            from orso.exceptions import DataError
+            import orso.compute.compiled as cc
+            import orso.row as rowmod
+
+            f = getattr(rowmod, "from_bytes_cython", None) or cc.from_bytes_cython
+            texts = []
+            for probe in (b"", b"\x10\x00\x00\x00\x00\x09" + b"\0" * 8 + b"\x90"):
+                try:
+                    f(probe)
+                    texts.append(None)
+                except DataError as e:
+                    texts.append(_exc_text(e))
+                except BaseException:
+                    texts.append(None)
+            if texts[0] is not None and texts[1] is not None:
+                _DE_TEXT[who] = tuple(texts)
+        except BaseException:
+            _DE_TEXT[who] = None
+    learned = _DE_TEXT.get(who)
+    if learned is None:
+        return "badLength" if "incorrect length" in text else "malformed"
+    if learned[0] == learned[1]:
+        return "dataError"
+    return "badLength" if text == learned[1] else "malformed"
+
+
+def same_form(g, m):
+    """Outcome forms agree (wire equality; an implementation that does not tell its two data errors apart agrees with both)."""
+    if g == m or wire.same(g, m):
+        return True
+    both = ("malformed", "badLength", "dataError")
+    return (isinstance(g, list) and isinstance(m, list) and len(g) == 2 and len(m) == 2 and g[0] == "err" and m[0] == "err"
+            and g[1] in both and m[1] in both and "dataError" in (g[1], m[1]))
+
+
+def source_reachable():
+    """Does `Row.from_bytes` reach the shadow when it is patched in?  (A glue that binds the compiled function
+    somewhere the harness does not patch would silently test the binary twice.)"""
+    if "reach" in _SHADOW:
+        return _SHADOW["reach"]
+    f = shadow()[0]
+    ok = False
+    if f is not None:
+        calls = []
+
+        def probe(data):
+            calls.append(1)
+            return f(data)
+
+        _SHADOW["f"] = probe
+        try:
+            with using_source():
+                try:
+                    row_class(0).from_bytes(b"\x10\x00\x00\x00\x00\x01" + b"\0" * 8 + b"\x90")
+                except BaseException:
+                    pass
+        finally:
+            _SHADOW["f"] = f
+        ok = bool(calls)
+        if not ok:
+            _SHADOW["why"] = "Row.from_bytes does not reach from_bytes_cython through orso.row / orso.compute.compiled"
+    _SHADOW["reach"] = ok
+    return ok
 
 
 class _Direct:
@@ -141,31 +279,105 @@ class _Direct:
         return cc.from_bytes_cython(data)
 
 
-def impl_decode(width, data, variant=None):
-    """Outcome class of Row.from_bytes on `data`: (form, exception name | None)."""
-    from orso.exceptions import DataError
+# Every outcome of a call into orso is a *judged* outcome, never a harness error.  `Row.from_bytes(data)` can
+#   return a row (a tuple / list: `Row` is a tuple)            -> ["ok", items]
+#   return something that is not a row (None, a str, an object) -> ["notrow", type name]
+#   raise DataError                                            -> ["err", "badLength" | "malformed"],  "DataError"
+#   raise anything else (incl. SystemExit, RecursionError)     -> ["err", "payloadError"],  exception class name
+# and the property decides what each of them means for the buffer at hand (judge_emitted / judge_altered).
 
-    R = _Direct if variant == "direct" else row_class(width, variant)
+
+def _exc_name(e):
     try:
+        return type(e).__name__
+    except BaseException:
+        return "BaseException"
+
+
+def _exc_text(e):
+    try:
+        return str(e)
+    except BaseException:
+        return ""
+
+
+def classify_row(row):
+    """What the decoder handed back, as an outcome form."""
+    if not isinstance(row, (tuple, list)):
+        return ["notrow", type(row).__name__]
+    try:
+        items = []
+        for x in row:
+            if isinstance(x, datetime.datetime):
+                items.append(["dt", None])
+            else:
+                items.append(["v", canon(x)])
+    except KeyboardInterrupt:
+        raise
+    except BaseException as e:  # a row whose own iteration raises, a cyclic value
+        return ["notrow", "%s (reading it raises %s)" % (type(row).__name__, _exc_name(e))]
+    return ["ok", items]
+
+
+def impl_decode(width, data, variant=None, keep=None):
+    """Outcome class of Row.from_bytes on `data`: (form, exception name | None).  `keep` (a list) receives the
+    object the decoder returned, for callers that use it again (a decoded row serialised again)."""
+    try:
+        from orso.exceptions import DataError
+    except BaseException:
+        DataError = ()
+    try:
+        R = _Direct if variant == "direct" else row_class(width, variant)
         row = R.from_bytes(data)
+    except KeyboardInterrupt:
+        raise
     except DataError as e:
-        return ["err", "badLength" if "incorrect length" in str(e) else "malformed"], "DataError"
-    except Exception as e:  # ormsgpack ValueError, the `cdef list` cast TypeError, fromtimestamp errors
-        return ["err", "payloadError"], type(e).__name__
-    items = []
-    for x in row:
-        if isinstance(x, datetime.datetime):
-            items.append(["dt", None])
-        else:
-            items.append(["v", canon(x)])
-    return ["ok", items], None
+        return ["err", data_error_kind(_exc_text(e))], "DataError"
+    except BaseException as e:  # ormsgpack ValueError, the `cdef list` cast TypeError, fromtimestamp errors, anything
+        return ["err", "payloadError"], _exc_name(e)
+    if keep is not None:
+        keep.append(row)
+    return classify_row(row), None
+
+
+def outcome_label(g):
+    return g[1] if g[0] == "err" else ("returns-" + g[1].split(" ")[0] if g[0] == "notrow" else "ok")
+
+
+def decoded_values(got):
+    """Items of an `ok` outcome as wire values (datetimes stay tagged)."""
+    return [it[1] if it[0] == "v" else it for it in got[1]]
+
+
+def judge_emitted(got, exc, row):
+    """The property on the decoder's answer to a record the encoder emitted for `row`: (clause, detail) | None."""
+    if got[0] == "err":
+        return "an emitted record is rejected by the decoder (%s)" % exc, got
+    if got[0] != "ok":
+        return "an emitted record is answered with %s instead of a row" % got[1], got
+    back = decoded_values(got)
+    if not wire.same(back, row):
+        return "round trip returns a different row", back
+    return None
+
+
+def judge_altered(label, got, exc):
+    """The property on the decoder's answer to a strict prefix / extension / altered version or length: it must
+    be rejected *with a data error* — not decoded, not answered with None, not another exception."""
+    if got[0] == "ok":
+        return "%s record is accepted and decoded into a row" % label, got[1]
+    if got[0] != "err":
+        return "%s record is answered with %s instead of a data error" % (label, got[1]), got
+    if exc != "DataError":
+        return "%s record raises %s instead of a data error" % (label, exc), got
+    return None
 
 
 def decode_all(width, datas, variant=None):
     """{'bin': [...], 'src': [...] | None, 'direct': [...]} outcomes of the decoders on every buffer
     (`direct`: the compiled function without the glue, on the first buffer only)."""
     out = {"bin": [impl_decode(width, d, variant) for d in datas], "src": None, "direct": [impl_decode(width, datas[0], "direct")]}
-    if shadow()[0] is not None:
+    if shadow()[0] is not None and source_reachable():
         with using_source():
             out["src"] = [impl_decode(width, d, variant) for d in datas]
     return out
@@ -190,25 +402,132 @@ def model_forms(text, what):
     return wire.dec_all(text[3:])
 
 
-def impl_encode(case):
-    """(record bytes | None, error kind | None)."""
-    from orso.exceptions import DataError
-
+def make_row_object(case):
+    """The row *object* a case serialises.  `obj` says how it is obtained (as_bytes is one property shared by all of
+    them, but what the object is — an instance with or without a `__dict__`, built by which constructor — is
+    part of the input): `tuple` (default: `R(values)`), `dict` (`R({field: value})`, through the compiled column
+    extractor), `decoded` (`R.from_bytes(R(values).as_bytes)`: what a reader holds), `slotted` / `plain`
+    (instances of a user subclass of the case's class with / without `__slots__ = ()`), `frame` (the row a
+    `DataFrame` made and sized in `append`)."""
     row = case["row"]
     R = row_class(len(row), case.get("cls"))
+    values = tuple(to_py(x, case.get("tuples", False)) for x in row)
+    how = case.get("obj", "tuple")
+    if how == "dict" and case.get("cls") in (None,):
+        return R({"c%d" % i: v for i, v in enumerate(values)})
+    if how == "decoded":
+        # the two steps before the call under test are judged by the plain cases; here they only have to succeed
+        try:
+            rec0 = R(values).as_bytes
+        except KeyboardInterrupt:
+            raise
+        except BaseException as e:
+            raise _NoObject("as_bytes of the fresh row raises %s" % _exc_name(e))
+        if not isinstance(rec0, bytes):
+            raise _NoObject("as_bytes of the fresh row returns %s" % type(rec0).__name__)
+        try:
+            obj = R.from_bytes(rec0)
+        except KeyboardInterrupt:
+            raise
+        except BaseException as e:
+            raise _NoObject("from_bytes of its own record raises %s" % _exc_name(e))
+        if not isinstance(obj, tuple) or not hasattr(obj, "as_bytes"):
+            raise _NoObject("from_bytes of its own record returns %s" % type(obj).__name__)
+        return obj
+    if how == "frame" and not case.get("cls"):
+        # what a DataFrame holds: a row made by the frame's own factory from a dict, already sized once by `append`
+        # (`nbytes()` -> `as_bytes`: the call under test is the second use of the object).  The frame is outside C01:
+        # when it cannot be built for these values the case falls back to the plain object.
+        try:
+            from orso import DataFrame
+
+            df = DataFrame(schema=["c%d" % i for i in range(len(values))])
+            df.append({"c%d" % i: v for i, v in enumerate(values)})
+            obj = df._rows[-1]
+            if isinstance(obj, tuple) and hasattr(obj, "as_bytes"):
+                return obj
+        except KeyboardInterrupt:
+            raise
+        except BaseException as e:
+            _FRAME_UNAVAILABLE[_exc_name(e)] = _FRAME_UNAVAILABLE.get(_exc_name(e), 0) + 1
+        return R(values)
+    if how in ("slotted", "plain"):
+        key = (len(row), case.get("cls"), how)
+        if key not in _R:
+            _R[key] = type("UserRow", (R,), {"__slots__": ()} if how == "slotted" else {})
+        return _R[key](values)
+    return R(values)
+
+
+_FRAME_UNAVAILABLE = {}
+
+
+class _NoObject(Exception):
+    """The row object of a case could not be obtained (a step *before* the call under test failed)."""
+
+
+def refusal_clause(err):
+    if err.startswith("no-object: "):
+        return "a decoded row cannot be obtained to be serialised again (%s)" % err[11:]
+    return "the encoder refuses a row of the value domain (%s)" % err
+
+
+def impl_encode(case):
+    """(record bytes | None, outcome kind | None).  Kinds: tooLarge (DataError), codec (TypeError), overflow,
+    `raises X` for any other exception, `returns X instead of bytes` when as_bytes hands back something else."""
+    try:
+        from orso.exceptions import DataError
+    except BaseException:
+        DataError = ()
+    row = case["row"]
     if _RECORD_HISTORY[0]:
         HISTORY.append((row, bool(case.get("tuples", False))))
     try:
-        rec = R(tuple(to_py(x, case.get("tuples", False)) for x in row)).as_bytes
+        rec = make_row_object(case).as_bytes
+    except KeyboardInterrupt:
+        raise
+    except _NoObject as e:
+        return None, "no-object: %s" % e
     except DataError:
         return None, "tooLarge"
     except TypeError:
         return None, "codec"
     except OverflowError:
         return None, "overflow"
-    except Exception as e:  # nothing else is documented: still an outcome of the implementation, not of the harness
-        return None, "raises " + type(e).__name__
+    except BaseException as e:  # nothing else is documented: still an outcome of the implementation, not of the harness
+        return None, "raises " + _exc_name(e)
+    if not isinstance(rec, bytes):
+        return None, "returns %s instead of bytes" % type(rec).__name__
     return rec, None
+
+
+def impl_reencode(case, rec):
+    """A decoded row is a row: serialise what `from_bytes(rec)` returned again and decode that.
+    -> None (nothing to judge: the first decode is judged elsewhere) | ("fail" | "disagree", clause, detail)."""
+    row = case["row"]
+    kept = []
+    got, exc = impl_decode(len(row), rec, case.get("cls"), keep=kept)
+    if got[0] != "ok" or not kept or not hasattr(kept[0], "as_bytes"):
+        return None
+    try:
+        from orso.exceptions import DataError
+    except BaseException:
+        DataError = ()
+    try:
+        rec2 = kept[0].as_bytes
+    except KeyboardInterrupt:
+        raise
+    except BaseException as e:
+        return "fail", "the encoder refuses a decoded row (raises %s) when it is serialised again" % _exc_name(e), {"record": rec}
+    if not isinstance(rec2, bytes):
+        return "fail", "the encoder returns %s instead of bytes for a decoded row" % type(rec2).__name__, {"record": rec}
+    got2, exc2 = impl_decode(len(row), rec2, case.get("cls"))
+    cl = judge_emitted(got2, exc2, row)
+    if cl is not None:
+        return "fail", cl[0] + " [record of a decoded row serialised again]", {"record": rec, "again": rec2, "got": cl[1]}
+    if rec2[:6] + rec2[14:] != rec[:6] + rec[14:]:
+        return "disagree", "a decoded row serialised again gives another payload", {"record": rec, "again": rec2}
+    return None
 
 
 # --------------------------------------------------------------------------- alterations of a record
@@ -245,13 +564,13 @@ def mutations(case, rec, rng_seed, light=False):
     n = len(rec)
     huge = n > 65536
     out = []
-    if n <= 4096 and not light:
+    if (n <= 4096 and not light) or n < 64:
         points = list(range(n))
     else:
         pts = set(range(0, 40)) | set(range(n - 40, n)) | {n // 2, 13, 14, 15}
         pts |= {rng.randrange(n) for _ in range(80 if not light else 10)}
         points = sorted(p for p in pts if 0 <= p < n)
-    if n <= MODEL_TEARS and not light:
+    if (n <= MODEL_TEARS and not light) or not points:
         model_points = set()  # all of them, through the `tears` op (one model call, run-length answer): see evaluate / eval_row
     elif not huge:
         model_points = {0, 1, 2, 5, 6, 13, 14, 15, 16, n // 2, n - 2, n - 1} | {rng.choice(points) for _ in range(28)}
@@ -266,34 +585,43 @@ def mutations(case, rec, rng_seed, light=False):
         out.append(("ext-terminator", ["x", sfx], True, not huge))
     out.append(("ext1", ["x", bytes([rng.getrandbits(8)])], True, not huge))
     out.append(("extN", ["x", bytes(rng.getrandbits(8) for _ in range(rng.randint(2, 20)))], True, not huge))
-    out.append(("ext2", ["x", rec], True, not huge))
+    if n:
+        out.append(("ext2", ["x", rec], True, not huge))
     pick = rng.randrange(32)
-    for j in range(4, 8):
-        out.append(("verflip", ["f", 0, j], True, not huge or j == 4 + pick % 4))
-    # every other value of the version nibble (theorem version_altered_rejected), low nibble kept / random
-    for v in range(16):
-        if v != rec[0] >> 4:
-            out.append(("vernib", ["s", 0, (v << 4) | (rec[0] & 15 if v % 2 else rng.getrandbits(4))], True, not huge))
-    for i in range(2, 6):
-        for j in range(8):
-            out.append(("lenflip", ["f", i, j], True, not huge or (i - 2) * 8 + j in (pick, (pick * 7 + 3) % 32)))
-    # any other four length bytes (theorem length_altered_rejected): neighbours, byte order, sign bit, random
-    ln = n - 14
-    alts = {(ln + 1) & 0xFFFFFFFF, (ln - 1) & 0xFFFFFFFF, ln | 0x80000000, (ln + 14) & 0xFFFFFFFF, n & 0xFFFFFFFF,
-            int.from_bytes(struct.pack("<I", ln), "big"), (ln << 8) & 0xFFFFFFFF, ln >> 8, 0, 0xFFFFFFFF, rng.getrandbits(32),
-            rng.getrandbits(8), (ln + 256) & 0xFFFFFFFF, (ln + 65536) & 0xFFFFFFFF, (ln + (1 << 24)) & 0xFFFFFFFF}
-    alts.discard(ln)
-    for a in sorted(alts):
-        out.append(("lenset", ["l", struct.pack(">I", a)], True, not huge))
+    # (a record shorter than its own header is judged as it is -- the decoder must accept what the encoder emits --
+    # and gets only the alterations that exist for it: nothing below indexes past its end)
+    if n >= 1:
+        for j in range(4, 8):
+            out.append(("verflip", ["f", 0, j], True, not huge or j == 4 + pick % 4))
+        # every other value of the version nibble (theorem version_altered_rejected), low nibble kept / random
+        for v in range(16):
+            if v != rec[0] >> 4:
+                out.append(("vernib", ["s", 0, (v << 4) | (rec[0] & 15 if v % 2 else rng.getrandbits(4))], True, not huge))
+    if n >= 6:
+        for i in range(2, 6):
+            for j in range(8):
+                out.append(("lenflip", ["f", i, j], True, not huge or (i - 2) * 8 + j in (pick, (pick * 7 + 3) % 32)))
+        # any other four length bytes (theorem length_altered_rejected): neighbours, byte order, sign bit, random
+        ln = int.from_bytes(rec[2:6], "big")
+        alts = {(ln + 1) & 0xFFFFFFFF, (ln - 1) & 0xFFFFFFFF, ln | 0x80000000, (ln + 14) & 0xFFFFFFFF, n & 0xFFFFFFFF,
+                int.from_bytes(struct.pack("<I", ln), "big"), (ln << 8) & 0xFFFFFFFF, ln >> 8, 0, 0xFFFFFFFF, rng.getrandbits(32),
+                rng.getrandbits(8), (ln + 256) & 0xFFFFFFFF, (ln + 65536) & 0xFFFFFFFF, (ln + (1 << 24)) & 0xFFFFFFFF,
+                ln & 0x00FFFFFF, ln ^ 0x01000000, ln ^ 0x80000000}
+        alts.discard(ln)
+        for a in sorted(alts):
+            out.append(("lenset", ["l", struct.pack(">I", a)], True, not huge))
     # not guarded by design: low nibble of byte 0, byte 1, the timestamp (records above 4 KiB: one of each,
     # every accepted alteration costs a full decode and comparison of the row)
-    for j in range(4):
-        if n <= 4096 or j == pick % 4:
-            out.append(("lowflip", ["f", 0, j], False, True))
-    for j in range(8):
-        if n <= 4096 or j == pick % 8:
-            out.append(("flagflip", ["f", 1, j], False, True))
-    out.append(("tsflip", ["f", 6 + rng.randrange(8), rng.randrange(8)], False, not huge))
+    if n >= 1:
+        for j in range(4):
+            if n <= 4096 or j == pick % 4:
+                out.append(("lowflip", ["f", 0, j], False, True))
+    if n >= 2:
+        for j in range(8):
+            if n <= 4096 or j == pick % 8:
+                out.append(("flagflip", ["f", 1, j], False, True))
+    if n >= 14:
+        out.append(("tsflip", ["f", 6 + rng.randrange(8), rng.randrange(8)], False, not huge))
     return out
 
 
@@ -328,7 +656,8 @@ def valid_row(row):
 def valid_case(c):
     k = c.get("kind")
     if k == "row":
-        return valid_row(c.get("row"))
+        return valid_row(c.get("row")) and c.get("obj", "tuple") in ("tuple", "dict", "decoded", "slotted", "plain", "frame") \
+            and c.get("cls") in (None, "base", "tuples_only") and not (c.get("obj") in ("dict", "frame") and c.get("cls"))
     if k == "seq":
         rows = c.get("rows")
         return isinstance(rows, list) and len(rows) >= 1 and all(valid_row(r) for r in rows)
@@ -344,21 +673,26 @@ def valid_case(c):
 # --------------------------------------------------------------------------- the oracle
 
 
-def judge_row(row, datas, labels, musts, outs, who):
+def judge_row(row, datas, labels, musts, outs, who, descs=None):
     """The property on one decoder's outcomes. `outs[0]` is the outcome on the record itself."""
     got, exc = outs[0]
-    if got[0] != "ok":
-        return "an emitted record is rejected by the decoder (%s)%s" % (exc, WHO[who]), got
-    back = [it[1] if it[0] == "v" else it for it in got[1]]
-    if not wire.same(back, row):
-        return "round trip returns a different row" + WHO[who], back
-    for label, must, data, (g, exc) in zip(labels, musts, datas[1:], outs[1:]):
+    cl = judge_emitted(got, exc, row)
+    if cl is not None:
+        return cl[0] + WHO[who], cl[1]
+    first = None
+    for j, (label, must, data, (g, exc)) in enumerate(zip(labels, musts, datas[1:], outs[1:])):
         if not must:
             continue
-        if g[0] == "ok":
-            return "%s record is accepted and decoded into a row%s" % (label, WHO[who]), {"data": data, "row": g[1]}
-        if exc != "DataError":
-            return "%s record raises %s instead of a data error%s" % (label, exc, WHO[who]), {"data": data}
+        cl = judge_altered(label, g, exc)
+        if cl is None:
+            continue
+        if first is None:
+            first = (cl[0], {"data": data, "outcome": cl[1], "alteration": descs[j] if descs else None, "all": []})
+        if cl[0] == first[0] and len(first[1]["all"]) < 40:
+            # every alteration of the record that fails the same way (e.g. every tear point), not only the first
+            first[1]["all"].append(descs[j] if descs else label)
+    if first is not None:
+        return first[0] + WHO[who], first[1]
     return None
 
 
@@ -373,10 +707,57 @@ def oracle_row(case, rec, muts, outcomes=None):
     for who in ("bin", "src", "direct"):
         if outcomes[who] is None:
             continue
-        cl = judge_row(row, datas, labels, musts, outcomes[who], who)
+        cl = judge_row(row, datas, labels, musts, outcomes[who], who, [m[1] for m in muts])
         if cl is not None:
             return cl
     return None
+
+
+def impl_reuse(case):
+    """One row object used again: `as_bytes`, `nbytes()` (which may cache on the object), `as_bytes` once more -- every
+    record it emits is a record of the row.  -> None | ("fail", clause, detail).  `nbytes()` itself is outside C01."""
+    row = case["row"]
+    try:
+        obj = make_row_object(case)
+        r1 = obj.as_bytes
+    except KeyboardInterrupt:
+        raise
+    except BaseException:
+        return None  # judged by the plain path
+    try:
+        obj.nbytes()
+    except KeyboardInterrupt:
+        raise
+    except BaseException:
+        pass
+    for n in (2, 3):
+        try:
+            r = obj.as_bytes
+        except KeyboardInterrupt:
+            raise
+        except BaseException as e:
+            return "fail", "the encoder refuses a row of the value domain (raises %s) when the same row object is serialised again" % _exc_name(e), {"use": n}
+        if not isinstance(r, bytes):
+            return "fail", "the encoder returns %s instead of bytes when the same row object is serialised again" % type(r).__name__, {"use": n}
+        got, exc = impl_decode(len(row), r, case.get("cls"))
+        cl = judge_emitted(got, exc, row)
+        if cl is not None:
+            return "fail", cl[0] + " [record of a row object serialised before]", {"use": n, "record": r, "first": r1, "got": cl[1]}
+    return None
+
+
+def full_oracle_row(case, rec):
+    """oracle_row, then the decoded row serialised again: everything the property says about one row."""
+    cl = oracle_row(case, rec, mutations(case, rec, mut_seed(case["row"], rec), light=case.get("light", False)))
+    if cl is None and len(rec) <= 70000:
+        again = impl_reencode(case, rec)
+        if again is not None and again[0] == "fail":
+            cl = again[1:]
+    if cl is None and len(rec) <= 70000:
+        again = impl_reuse(case)
+        if again is not None:
+            cl = again[1:]
+    return cl
 
 
 def py_split(data):
@@ -406,7 +787,7 @@ def oracle_seq(case):
         recs.append(rec)
     order = list(range(len(rows))) + list(range(len(rows) - 1, -1, -1))
     for who in ("bin", "src"):
-        if who == "src" and shadow()[0] is None:
+        if who == "src" and (shadow()[0] is None or not source_reachable()):
             continue
         ctxm = using_source() if who == "src" else None
         if ctxm:
@@ -414,12 +795,12 @@ def oracle_seq(case):
         try:
             for i in order:
                 got, exc = impl_decode(len(rows[i]), recs[i])
-                if got[0] != "ok":
-                    return ("an emitted record is rejected by the decoder (%s) in a sequence%s" % (exc, WHO[who]), {"index": i, "row": rows[i]}), recs
-                back = [it[1] if it[0] == "v" else it for it in got[1]]
-                if not wire.same(back, rows[i]):
+                cl = judge_emitted(got, exc, rows[i])
+                if cl is not None and got[0] == "ok":
                     return ("round trip returns a different row for a row serialised after others in the same process" + WHO[who],
-                            {"index": i, "row": rows[i], "decoded": back}), recs
+                            {"index": i, "row": rows[i], "decoded": cl[1]}), recs
+                if cl is not None:
+                    return (cl[0] + " in a sequence" + WHO[who], {"index": i, "row": rows[i]}), recs
         finally:
             if ctxm:
                 ctxm.__exit__()
@@ -463,9 +844,9 @@ def _fresh_main():
     else:
         rec, err = impl_encode(case)
         if rec is None:
-            clause = ("the encoder refuses a row of the value domain (%s)" % err, err)
+            clause = (refusal_clause(err), err)
         else:
-            clause = oracle_row(case, rec, mutations(case, rec, mut_seed(case["row"], rec)))
+            clause = full_oracle_row(case, rec)
     print("FRESH " + json.dumps({"clause": clause[0] if clause else None, "detail": core._jsonable(clause[1]) if clause else None}))
 
 
@@ -672,21 +1053,42 @@ def eval_row(ctx, c, rec, err, muts, mo):
         ctx.hit("encoder-refused:" + err)
         if c["kind"] == "row":
             if deep is not None:
-                ctx.fail(deep, "the encoder refuses a row of the value domain (%s)" % err, impl=err, model=me[:1])
+                ctx.fail(deep, refusal_clause(err), impl=err, model=me[:1])
             else:
-                _fail_row(ctx, c, "the encoder refuses a row of the value domain (%s)" % err, err, me)
+                _fail_row(ctx, c, refusal_clause(err), err, me)
         return
     ctx.hit("record:" + size_bucket(len(rec)))
     datas = [rec] + [apply_desc(rec, d) for _, d, _, _ in muts]
     outcomes = decode_all(len(row), datas, c.get("cls"))
     if c.get("cls"):
         ctx.hit("class:" + c["cls"])
+    ctx.hit("object:%s/%s" % (c.get("cls") or "factory", c.get("obj", "tuple")))
     clause = oracle_row(c, rec, muts, outcomes) if c["kind"] == "row" else None
+    again = None
+    if clause is None and c["kind"] == "row" and len(rec) <= 70000:
+        # what a reader holds is a row too: the decoded row, serialised again, must give a record of the same row
+        again = impl_reencode(c, rec)
+        ctx.hit("decoded-row-serialised-again")
+        if again is not None and again[0] == "fail":
+            clause = again[1:]
+        if clause is None:
+            keep = _RECORD_HISTORY[0]
+            _RECORD_HISTORY[0] = False
+            try:
+                reuse = impl_reuse(c)
+            finally:
+                _RECORD_HISTORY[0] = keep
+            ctx.hit("row-object-serialised-three-times")
+            if reuse is not None:
+                clause = reuse[1:]
     if clause is not None:
         if deep is not None:
             ctx.fail(deep, clause[0], impl=None, model=None)
         else:
             _fail_row(ctx, c, clause[0], clause[1], me)
+        return
+    if again is not None and again[0] == "disagree":
+        ctx.disagree(shown, again[2], {"encode": me}, again[1])
         return
     # correspondence: the record itself
     if me[0] != "ok" or me[1] != rec:
@@ -703,15 +1105,15 @@ def eval_row(ctx, c, rec, err, muts, mo):
         outs = outcomes[who]
         if outs is None:
             continue
-        if not wire.same(outs[0][0], base):
+        if not same_form(outs[0][0], base):
             ctx.disagree(shown, {"decode": outs[0][0], "decoder": who}, {"decode": base}, "decoder outcome on the emitted record differs" + WHO[who])
             return
         for i, a in zip(sent, answers):
             m = base if a == "same" else model_decode_form(a)
             g = outs[i + 1][0]
             if who == "bin":
-                ctx.hit("mutation:%s->%s" % (muts[i][0], g[1] if g[0] == "err" else "ok"))
-            if g != m and not wire.same(g, m):
+                ctx.hit("mutation:%s->%s" % (muts[i][0], outcome_label(g)))
+            if not same_form(g, m):
                 ctx.disagree({"kind": "bytes", "width": len(row), "data": datas[i + 1], "from": muts[i][0]}, {"decode": g, "decoder": who}, {"decode": m},
                              "decoder outcome on a %s record differs%s" % (muts[i][0], WHO[who]))
                 return
@@ -732,14 +1134,14 @@ def eval_row(ctx, c, rec, err, muts, mo):
             for i, m in zip(torn, want):
                 g = outs[i + 1][0]
                 if who == "bin":
-                    ctx.hit("mutation:torn->%s" % (g[1] if g[0] == "err" else "ok"))
-                if g != m and not wire.same(g, m):
+                    ctx.hit("mutation:torn->%s" % outcome_label(g))
+                if not same_form(g, m):
                     ctx.disagree({"kind": "bytes", "width": len(row), "data": datas[i + 1], "from": "torn"}, {"decode": g, "decoder": who}, {"decode": m},
                                  "decoder outcome on a torn record differs" + WHO[who])
                     return
     if outcomes["src"] is not None and outcomes["src"] != outcomes["bin"]:
         for i, (x, y) in enumerate(zip(outcomes["bin"], outcomes["src"])):
-            if x != y and not wire.same(x[0], y[0]):
+            if x != y and not same_form(x[0], y[0]):
                 ctx.disagree({"kind": "bytes", "width": len(row), "data": datas[i]}, {"decode": x[0], "decoder": "bin"}, {"decode": y[0], "decoder": "src"},
                              "the loaded binary and compiled.pyx (shadow) differ on a record")
                 return
@@ -758,7 +1160,8 @@ def _fail_row(ctx, c, clause, impl, model):
     try:
         fresh_clause = None
         try:
-            fresh_clause, _ = fresh_oracle({"kind": "row", "row": c["row"], "tuples": c.get("tuples", False), "cls": c.get("cls")})
+            fresh_clause, _ = fresh_oracle({"kind": "row", "row": c["row"], "tuples": c.get("tuples", False), "cls": c.get("cls"), "obj": c.get("obj", "tuple"),
+                                             "light": c.get("light", False)})
         except Exception as e:
             ctx.note("fresh_oracle_error", str(e)[:300])
             fresh_clause = clause
@@ -784,15 +1187,15 @@ def _fail_row(ctx, c, clause, impl, model):
                 return False
             rec2, err2 = impl_encode(c2)
             if rec2 is None:
-                return _norm(clause) == _norm("the encoder refuses a row of the value domain (%s)" % err2)
-            cl = oracle_row(c2, rec2, mutations(c2, rec2, mut_seed(c2["row"], rec2)))
+                return _norm(clause) == _norm(refusal_clause(err2))
+            cl = full_oracle_row(c2, rec2)
             return cl is not None and _norm(cl[0]) == _norm(clause)
 
         c_min = shrink(c, still)
         if c_min is not c:
             rec2, err2 = impl_encode(c_min)
             if rec2 is not None:
-                cl = oracle_row(c_min, rec2, mutations(c_min, rec2, mut_seed(c_min["row"], rec2)))
+                cl = full_oracle_row(c_min, rec2)
                 if cl is not None:
                     clause, impl = cl
         ctx.fail(c_min, clause, impl=impl, model=model if c_min is c else None)
@@ -867,17 +1270,17 @@ def eval_bytes(ctx, c, mo):
     outs = decode_all(c["width"], [data])
     g, exc = outs["bin"][0]
     m = model_decode_form(model_forms(mo, "decode")[0])
-    ctx.hit("bytes->%s" % (g[1] if g[0] == "err" else "ok"))
+    ctx.hit("bytes->%s" % outcome_label(g))
     if exc not in (None, "DataError"):
         ctx.hit("payload-exception:" + exc)
     if len(data) > 14:
         ctx.hit("payload-first-byte:%s" % family(data[14]))
-    if not wire.same(g, m):
+    if not same_form(g, m):
         ctx.disagree(c, {"decode": g, "decoder": "bin"}, {"decode": m}, "decoder outcome on arbitrary bytes differs")
         return
     if outs["src"] is not None:
         g2, exc2 = outs["src"][0]
-        if not wire.same(g2, m):
+        if not same_form(g2, m):
             ctx.disagree(c, {"decode": g2, "decoder": "src"}, {"decode": m}, "decoder outcome on arbitrary bytes differs" + WHO["src"])
 
 
@@ -926,29 +1329,35 @@ def big_item(c):
 
 def eval_big(ctx, c, mo):
     """Records near the cap and near 2^16: the payload has exactly n bytes."""
-    from orso.exceptions import DataError
-
     n, cut, ext = c["n"], c.get("cut", 0), c.get("ext", 0)
     ctx.case(c, True)
     ctx.hit("kind:big")
     ctx.hit("big:n-MAX=%d" % (n - MAX) if abs(n - MAX) <= 1000 else "big:other")
-    R = row_class(1)
     item = big_item(c)
     m = model_forms(mo, "bigframe")
+    keep = _RECORD_HISTORY[0]
+    _RECORD_HISTORY[0] = False
     try:
-        rec = R((item,)).as_bytes
-    except DataError:
-        ctx.hit("encoder-refused:tooLarge")
+        rec, err = impl_encode({"row": [item]})
+    finally:
+        _RECORD_HISTORY[0] = keep
+    if rec is None:
+        ctx.hit("encoder-refused:" + err)
+        if err != "tooLarge":
+            # a row of the value domain below the cap the code itself states: refused with something else than the size error
+            if m[0][0] == "ok":
+                ctx.fail(c, "the encoder refuses a row of the value domain (%s) near a size boundary" % err, impl=err, model=m)
+            else:
+                ctx.disagree(c, {"encode": err}, {"bigframe": m[0]})
+            return
         # the property does not fix the cap: a different refusal threshold is a model disagreement
         if m[0] != ["err", "tooLarge"]:
             ctx.disagree(c, {"encode": "tooLarge"}, {"bigframe": m[0]})
         return
-    if len(rec) != n + 14:
-        raise InfraError("big case: payload has %d bytes, wanted %d" % (len(rec) - 14, n))
     if m[0][0] != "ok":
         ctx.disagree(c, {"record_len": len(rec)}, {"bigframe": m[0]}, "the encoder emits a record the model refuses")
         return
-    data = rec[: len(rec) - cut] + b"\x00" * ext
+    data = rec[: max(0, len(rec) - cut)] + b"\x00" * ext
     outs = decode_all(1, [data])
     want = None
     for who in ("bin", "src"):
@@ -956,18 +1365,25 @@ def eval_big(ctx, c, mo):
             continue
         g, exc = outs[who][0]
         if cut == 0 and ext == 0:
-            if g[0] != "ok" or g[1][0][1] != item:
-                ctx.fail(c, "an emitted record near the size limit is rejected or decoded differently" + WHO[who], impl=[g[0], exc] if g[0] != "ok" else "different item", model=m)
+            cl = judge_emitted(g, exc, [item])
+            if cl is not None:
+                ctx.fail(c, "an emitted record near the size limit is rejected or decoded differently" + WHO[who],
+                         impl=[g[0], exc] if g[0] != "ok" else "different row", model=m, detail=cl[0])
                 return
             want = ["ok", n]
         else:
-            if g[0] == "ok" or exc != "DataError":
-                ctx.fail(c, "a torn/extended record near the size limit is not rejected with a data error" + WHO[who], impl=[g[0], exc], model=m)
+            cl = judge_altered("torn/extended", g, exc)
+            if cl is not None:
+                ctx.fail(c, "a torn/extended record near the size limit is not rejected with a data error" + WHO[who], impl=[g[0], g[1] if g[0] != "ok" else None, exc],
+                         model=m, detail=cl[0])
                 return
             want = g
-    if m[0][0] != "ok" or m[0][1][:6] != rec[:6] or m[0][2] != len(rec):
+    if len(rec) != n + 14:
+        # the oracle is silent (the record decodes to the row): its size is a matter of correspondence
+        ctx.disagree(c, {"record_len": len(rec)}, {"bigframe": m[0]}, "the payload of a large record has %d bytes, the model's %d" % (len(rec) - 14, n))
+    elif m[0][0] != "ok" or m[0][1][:6] != rec[:6] or m[0][2] != len(rec):
         ctx.disagree(c, {"header": rec[:6], "len": len(rec)}, {"bigframe": m[0]}, "header of a large record differs")
-    elif m[1] != want:
+    elif not same_form(m[1], want):
         ctx.disagree(c, {"guards": want}, {"guards": m[1]}, "guard outcome on a large record differs")
 
 
@@ -1007,14 +1423,19 @@ GLUE = {
 def glue_prepare(c):
     make, image = GLUE[c["what"]]
     before, after = c.get("before", []), c.get("after", [])
-    R = row_class(len(before) + 1 + len(after))
     info = {"image": before + [image] + after, "ts": 0, "rec": None, "exc": None}
     try:
+        R = row_class(len(before) + 1 + len(after))
         rec = R(tuple(before) + (make(),) + tuple(after)).as_bytes
-        info["rec"] = rec
-        info["ts"] = int.from_bytes(rec[6:14], "big")
-    except Exception as e:
-        info["exc"] = "%s: %s" % (type(e).__name__, str(e)[:100])
+        if not isinstance(rec, bytes):
+            info["exc"] = "returns %s instead of bytes" % type(rec).__name__
+        else:
+            info["rec"] = rec
+            info["ts"] = int.from_bytes(rec[6:14], "big")
+    except KeyboardInterrupt:
+        raise
+    except BaseException as e:
+        info["exc"] = "%s: %s" % (_exc_name(e), _exc_text(e)[:100])
     return info
 
 
@@ -1089,7 +1510,12 @@ def path_codes():
                 visit(v, depth + 1)
 
     for v in list(vars(rowmod).values()):
-        visit(v)
+        try:
+            visit(v)
+        except KeyboardInterrupt:
+            raise
+        except BaseException:  # an object whose attributes cannot be looked at: not a frame of the path
+            pass
     f = shadow()[0]
     if f is not None and hasattr(f, "__code__"):
         add(f.__code__)
@@ -1131,10 +1557,10 @@ def state_touched():
     change (never a violation in itself: a hint where to spend schedules, reported in the evidence)."""
     if "touched" in _CONC:
         return _CONC["touched"]
-    R = row_class(2)
-    before = module_state()
     touched = set()
     try:
+        R = row_class(2)
+        before = module_state()
         for values in ((1, "a"), ("x" * 300, None), (1, "a")):
             rec = R(values).as_bytes
             after = module_state()
@@ -1144,7 +1570,9 @@ def state_touched():
             after = module_state()
             touched |= {k for k in set(before) | set(after) if before.get(k) != after.get(k)}
             before = after
-    except Exception:
+    except KeyboardInterrupt:
+        raise
+    except BaseException:
         pass
     _CONC["touched"] = sorted(touched)
     return _CONC["touched"]
@@ -1158,15 +1586,23 @@ def conc_prepare(case):
     try:
         for t in case["threads"]:
             row = t["row"]
-            R = row_class(len(row), t.get("cls"))
             values = tuple(to_py(x, t.get("tuples", False)) for x in row)
             if t["op"] == "enc":
-                obj = R(values)
-                prepared.append(((lambda obj=obj: obj.as_bytes), t, None))
+                try:
+                    R = row_class(len(row), t.get("cls"))
+                    obj = R(values)
+                    thunk = (lambda obj=obj: obj.as_bytes)
+                except KeyboardInterrupt:
+                    raise
+                except BaseException as e:  # the constructor is orso code too: its failure is the thread's outcome
+                    def thunk(e=e):
+                        raise e
+                prepared.append((thunk, t, None))
             else:
                 rec, err = impl_encode({"row": row, "tuples": t.get("tuples", False), "cls": t.get("cls")})
                 if rec is None:
-                    raise InfraError("conc case: the row of a decoding thread is not encodable (%s)" % err)
+                    # judged by the row path (the encoder refuses a row of the domain); nothing to hand to a decoding thread
+                    return None
                 data = apply_desc(rec, t["alter"]) if t.get("alter") else rec
                 prepared.append(((lambda n=len(row), data=data, cls=t.get("cls"): impl_decode(n, data, cls)), t, data))
     finally:
@@ -1179,7 +1615,9 @@ def conc_run(case, prepared=None):
     from .. import sched
 
     prepared = prepared or conc_prepare(case)
-    src = case.get("decoder") == "src" and shadow()[0] is not None
+    if prepared is None:
+        return {"skipped": True, "trace": [], "alive": [], "outcomes": [], "stuck": False, "bad_prefix": None, "prepared": []}
+    src = case.get("decoder") == "src" and shadow()[0] is not None and source_reachable()
     cm = using_source() if src else None
     if cm:
         cm.__enter__()
@@ -1210,27 +1648,22 @@ def oracle_conc(case, res):
                 if outs[w] is None:
                     continue
                 got, exc = outs[w][0]
-                if got[0] != "ok":
-                    return "an emitted record is rejected by the decoder (%s)%s%s" % (exc, WHO[w], who), {"thread": i, "row": row, "record": rec}
-                back = [it[1] if it[0] == "v" else it for it in got[1]]
-                if not wire.same(back, row):
-                    return "round trip returns a different row" + WHO[w] + who, {"thread": i, "row": row, "record": rec, "decoded": back}
+                cl = judge_emitted(got, exc, row)
+                if cl is not None:
+                    return cl[0] + WHO[w] + who, {"thread": i, "row": row, "record": rec, "got": cl[1]}
         else:
             if out[0] != "ok":
                 return "the decoder's caller raised %s%s" % (out[1], who), {"thread": i}
             got, exc = out[1]
             w = WHO["src"] if case.get("decoder") == "src" else ""
             if t.get("alter"):
-                if got[0] == "ok":
-                    return "%s record is accepted and decoded into a row%s%s" % (_LABEL.get(t["alter"][0], "altered"), w, who), {"thread": i, "data": data}
-                if exc != "DataError":
-                    return "%s record raises %s instead of a data error%s%s" % (_LABEL.get(t["alter"][0], "altered"), exc, w, who), {"thread": i, "data": data}
+                cl = judge_altered(_LABEL.get(t["alter"][0], "altered"), got, exc)
+                if cl is not None:
+                    return cl[0] + w + who, {"thread": i, "data": data}
             else:
-                if got[0] != "ok":
-                    return "an emitted record is rejected by the decoder (%s)%s%s" % (exc, w, who), {"thread": i, "row": row, "record": data}
-                back = [it[1] if it[0] == "v" else it for it in got[1]]
-                if not wire.same(back, row):
-                    return "round trip returns a different row" + w + who, {"thread": i, "row": row, "record": data, "decoded": back}
+                cl = judge_emitted(got, exc, row)
+                if cl is not None:
+                    return cl[0] + w + who, {"thread": i, "row": row, "record": data, "got": cl[1]}
     return None
 
 
@@ -1247,6 +1680,9 @@ def evaluate_conc(ctx, items):
                 + (":src" if case.get("decoder") == "src" else ""))
         switches = sum(1 for a, b in zip(res["trace"], res["trace"][1:]) if a[0] != b[0])
         ctx.hit("conc-switches:%s" % (switches if switches < 4 else ">=4"))
+        if res.get("skipped"):
+            ctx.hit("conc:skipped-row-not-encodable")
+            continue
         if res["stuck"]:
             ctx.hit("conc:stuck")
             ctx.note("conc_stuck", "the scheduler timed out on %s (a thread blocked outside its control); the run is not judged" % json.dumps(core._jsonable(case))[:300])
@@ -1301,8 +1737,11 @@ def conc_explore(ctx, base, bound, limit):
     from .. import sched
 
     prepared = conc_prepare(base)
+    if prepared is None:
+        ctx.hit("conc:skipped-row-not-encodable")
+        return 0, False
     thunks = [p[0] for p in prepared]
-    src = base.get("decoder") == "src" and shadow()[0] is not None
+    src = base.get("decoder") == "src" and shadow()[0] is not None and source_reachable()
     cm = using_source() if src else None
     if cm:
         cm.__enter__()
@@ -1478,6 +1917,17 @@ def exhaustive_cases():
     for cls in ("tuples_only", "base"):
         for row in ([], [None], [1, "a"], [-0.0, True, b"x", [1, {"k": 2}]]):
             yield {"kind": "row", "row": row, "cls": cls}
+    # the kind of row *object*: built from a tuple / from a dict, handed back by from_bytes (what a reader holds),
+    # an instance of a user subclass with and without `__slots__ = ()` -- of each class variant
+    for cls in (None, "tuples_only", "base"):
+        for obj in ("decoded", "slotted", "plain", "dict", "frame"):
+            if obj in ("dict", "frame") and cls is not None:
+                continue
+            for row in ([], [None], [1, "a"], [-0.0, True, b"x", [1, {"k": 2}]]):
+                c = {"kind": "row", "row": row, "obj": obj}
+                if cls:
+                    c["cls"] = cls
+                yield c
 
 
 def boundary_cases(ctx):
@@ -1546,6 +1996,9 @@ def random_row(rng, big=False):
         c["cls"] = "tuples_only"
     elif q < 0.2:
         c["cls"] = "base"
+    q = rng.random()
+    if q < 0.15:
+        c["obj"] = rng.choice(["decoded", "slotted", "plain"] + (["dict", "frame"] if "cls" not in c else []))
     return c
 
 
@@ -1658,6 +2111,8 @@ def mutated_payload_case(rng, recs):
     """A well-framed record whose *payload* is an emitted payload with one byte changed, a byte dropped or
     a family header rewritten to its longer form: the decoder must give a row or an error, as the model says."""
     rec = rng.choice(recs)
+    if len(rec) < 14:  # (an encoder that emits less than a header: judged by the row path; here only a source of payloads)
+        rec = framed(b"\x90")
     p = bytearray(rec[14:])
     if not p:
         p = bytearray(b"\x90")
@@ -1703,6 +2158,18 @@ def family_cases():
         if len(f) > 1:
             yield {"kind": "bytes", "width": 1, "data": framed(b"\x91" + f[:-1]), "from": "family-truncated"}
         yield {"kind": "bytes", "width": 1, "data": framed(b"\x91" + f + b"\x00"), "from": "family-trailing"}
+
+
+def unguarded_cases():
+    """The smallest emitted-shape records with one unguarded bit set (low nibble of byte 0, each bit of the flags
+    byte, bits of the clock): the property is silent about them, the model accepts them as the same row."""
+    for payload in (b"\x90", b"\x91\xc0"):
+        for j in range(4):
+            yield {"kind": "bytes", "width": len(payload) - 1, "data": framed(payload, b0=0x10 | (1 << j)), "from": "unguarded-low-nibble"}
+        for j in range(8):
+            yield {"kind": "bytes", "width": len(payload) - 1, "data": framed(payload, b1=1 << j), "from": "unguarded-flags-byte"}
+        yield {"kind": "bytes", "width": len(payload) - 1, "data": framed(payload, b1=0xFF), "from": "unguarded-flags-byte"}
+        yield {"kind": "bytes", "width": len(payload) - 1, "data": framed(payload, ts=b"\xff" * 8), "from": "unguarded-clock"}
 
 
 def float32_cases():
@@ -1791,7 +2258,7 @@ def run(ctx):
     ctx.exhaustive = False
     ctx.note("exhaustive_scope", "all rows of width 0, 1 over %d boundary values and all rows of width 2 over 15 values (%d rows); "
              "for each, every tear point, the 36 guarded bit flips, every other version nibble, 4 extensions" % (len(SCALARS) + len(small_containers()), n_ex))
-    evaluate(ctx, list(float32_cases()) + list(family_cases()) + reserved_cases(rng) + refuse_cases() + glue_cases())
+    evaluate(ctx, list(unguarded_cases()) + list(float32_cases()) + list(family_cases()) + reserved_cases(rng) + refuse_cases() + glue_cases())
     evaluate(ctx, seq_cases(rng, ctx.scale(60, 1500)))
     conc_phase(ctx)
     evaluate(ctx, boundary_cases(ctx))
@@ -1818,11 +2285,42 @@ def run(ctx):
         done += k
     for c in cap_cases(ctx):
         evaluate(ctx, [c])
+    for k, n in sorted(_FRAME_UNAVAILABLE.items()):
+        ctx.hit("object:frame-unavailable:" + k, n)
+    correspondence_replay(ctx)
+
+
+def correspondence_replay(ctx):
+    """The runner writes the model/implementation disagreements into a replay only when the oracle found nothing.
+    When it did, the disagreements of *another kind* would be lost (e.g. the decoder answering None for a buffer the
+    property says nothing about, next to a tear that raises the wrong exception): keep one of each kind in a replay
+    file of their own, named in the evidence (no VIOLATION line of its own: the oracle's violations are printed)."""
+    if not ctx.violations or not ctx.disagreements or ctx.replaying:
+        return
+    def head(side):
+        f = side.get("decode") if isinstance(side, dict) else None
+        if isinstance(f, list) and f:
+            return json.dumps(f[:1] if f[0] == "ok" else f[:2], default=repr)
+        return json.dumps(side, sort_keys=True, default=repr)[:60]
+
+    seen, keep = set(), []
+    for d in ctx.disagreements:
+        key = (d["what"], head(d["impl"]), head(d["model"]))
+        if key not in seen and len(keep) < 12:
+            seen.add(key)
+            keep.append(d)
+    path = ctx._write_replay({"property": ctx.prop_id, "seed": ctx.seed, "tier": ctx.tier, "kind": "correspondence-disagreement",
+                              "correspondence_disagreements": keep,
+                              "note": "model and implementation differ on these inputs while the property's oracle is silent about them; "
+                                      "the oracle's own violations of this run are in the other replay files"})
+    ctx.note("correspondence_replay", path)
 
 
 def intensify(ctx):
     rng = ctx.rng
     n = 0
+    if ctx.replaying:
+        return  # a replay shows what is stored in it; the search belongs to the run
     while n < 4000 and ctx.time_left() > 5:
         evaluate(ctx, [random_row(rng, big=(i % 4 == 0)) for i in range(150)])
         evaluate(ctx, seq_cases(rng, 40))
